@@ -585,6 +585,39 @@ def main():
     for cls, c in known_hits.items():
         log("note: generated cases in known class %s (impl = model ≠ spec), e.g. %s" % (cls, canon(c)[:160]))
 
+    # ------------------------------------------------------------------ (5b) the capacity gate on every public add path, rule actions included:
+    # a rule action that calls Env.AddFact goes through Location.AddFact and must be refused at capacity like a direct add
+    from lochist import js_of_tmpl, run_histories, compare_history
+    acases = []
+    arng = ck.rng
+    for _ in range(120 if not ck.thorough else 2000):
+        mx = arng.randint(2, 6)
+        ops = [{"op": "setMaxFacts", "n": mx}]
+        t = {"t": "addfact", "id": "made%d" % arng.randint(0, 2), "fact": {"by": "action"}}
+        ops.append({"op": "addRule", "id": "r1", "rule": {"when": {"pattern": {"go": "?x"}}, "action": {"code": js_of_tmpl(t), "verif_tmpl": t}}})
+        for k in range(arng.randint(0, mx + 1)):
+            ops.append({"op": "addFact", "id": "f%d" % k, "fact": {"k": k}})
+            if arng.random() < 0.2: ops.append({"op": "remFact", "id": "f%d" % arng.randint(0, k)})
+        for _ in range(arng.randint(1, 3)):
+            ops.append({"op": "event", "event": {"go": 1}})
+            ops.append({"op": "size"})
+        for o in ops: o["loc"] = "a"
+        acases.append({"kind": "loc", "state": arng.choice(["indexed", "linear"]), "locs": ["a"], "ops": ops, "_max": mx})
+    ai, am, amc = run_histories(acases, drv, mdl)
+    for c, i, m in zip(amc, ai, am):
+        ck.count(c)
+        dist["capacity_action_cases"] = dist.get("capacity_action_cases", 0) + 1
+        for k, op, io, mo, same in compare_history(c, i, m):
+            if op is None: break
+            if op["op"] == "size" and isinstance(io, dict) and isinstance(io.get("ok"), (int, float)) and io["ok"] > c["_max"]:
+                ck.violation("the location holds %d facts with MaxFacts=%d after a rule action added a fact (%s state)" % (io["ok"], c["_max"], c["state"]),
+                             {"case": {kk: (v if kk != "ops" else v[: k + 1]) for kk, v in c.items()}, "impl": io}, tag="capacity-action")
+                break
+            if not same:
+                ck.violation("capacity history with a fact-adding rule action differs from the model at op %d (%s): impl=%s model=%s" % (k, op["op"], canon(io)[:250], canon(mo)[:250]),
+                             {"case": {kk: (v if kk != "ops" else v[: k + 1]) for kk, v in c.items()}, "impl": io, "model": mo}, tag="capacity-action")
+                break
+
     ck.cov["rule"] = ("breaker: 20-bucket states x gaps on/around every multiple of a tick (explicit-time slide, white box); call sequences through the real Do() "
                       "with back-dated `updated` and the exact clock readings read back (patterns: burst, faster than a tick, whole ticks, lossy, pauses around one window, "
                       "boundaries, mixed; fresh and arbitrary start states); wall-clock scripts and concurrent callers checked against the model/the window bound with brackets; "
